@@ -63,12 +63,14 @@ ImportNames == <<"K", "f", "x">>       \* `from pkg.M import K, f, x` (those in 
 
 \* ---- state ------------------------------------------------------------------------------------------
 VARIABLES mpriv,     \* the defining module is named `_mod` (TRUE) or `mod` (FALSE)
+          site,      \* where the re-exports (imports + __all__) live: "root" = pkg/__init__.py (walked BEFORE M),
+                     \* "sib" = the public sibling module pkg/zapi.py (walked AFTER M; pkg/__init__.py is then empty)
           old, new,  \* the two versions (records, see BasePackage)
           log,       \* the edit script: sequence of [op, id]
           report,    \* Impl: [aborted |-> exception name or "no", out |-> set of <<breakage kind, obj.path>>]
           pub,       \* Ref: PubPaths(old) - set of <<public access path, id of the definition it designates>>
           canon      \* Ref: CanonPaths(old) - the same for every access path below pkg.M, public or not
-vars == <<mpriv, old, new, log, report, pub, canon>>
+vars == <<mpriv, site, old, new, log, report, pub, canon>>
 
 Underscore(nm) == nm \in {"_p", "_kp"} \/ (nm = "M" /\ mpriv)
 
@@ -89,24 +91,32 @@ BasePackage(mallc, reexp, withRall, ext, cyc, kbase) ==
    mall |-> CASE mallc = "full" -> {"B", "K", "f", "x"} [] mallc = "part" -> {"K", "f"} [] OTHER -> {}]
 
 \* ---- object handles (what the finder holds: an Object or an Alias) -----------------------------------
-\*   def : the definition `id`            imp : re-export alias pkg.<id>        mcyc: alias pkg.M.cyc -> pkg.cyc
-\*   inh : Alias(name, target = base member `id`, parent = class `cls`, inherited = True)      root: the package
+\*   def : the definition `id`       imp : re-export alias <site>.<id>       mcyc: alias pkg.M.cyc -> <site>.cyc
+\*   inh : Alias(name, target = base member `id`, parent = class `cls`, inherited = True)
+\*   root: the package                sib : the module pkg.zapi (exists when site = "sib")
 H(t, id, cls) == [t |-> t, id |-> id, cls |-> cls]
 RootH == H("root", "-", "-")
+SibH == H("sib", "-", "-")
+SitePath == IF site = "root" THEN ROOT ELSE <<"pkg", "zapi">>
 DefH(d) == H("def", d, "-")
 IsAlias(h) == h.t \in {"imp", "mcyc", "inh"}
-PathOf(h) == CASE h.t = "root" -> ROOT [] h.t = "def" -> CP(h.id) [] h.t = "imp" -> <<"pkg", h.id>>
+PathOf(h) == CASE h.t = "root" -> ROOT [] h.t = "sib" -> <<"pkg", "zapi">> [] h.t = "def" -> CP(h.id)
+               [] h.t = "imp" -> Append(SitePath, h.id)
                [] h.t = "mcyc" -> <<"pkg", "M", "cyc">> [] OTHER -> Append(CP(h.cls), NameOf(h.id))
 NameH(h) == PathOf(h)[Len(PathOf(h))]
-KindH(v, h) == IF h.t = "root" THEN "module" ELSE v.kind[h.id]        \* only used on non-alias handles
+KindH(v, h) == IF h.t \in {"root", "sib"} THEN "module" ELSE v.kind[h.id]        \* only used on non-alias handles
 
 \* members in definition order (dict order of Object.members)
+Imports(v) ==          \* the alias members created by the import statements of the re-export site, in source order
+  [i \in 1..Len(SelectSeq(ImportNames, LAMBDA n : n \in v.imp)) |-> H("imp", SelectSeq(ImportNames, LAMBDA n : n \in v.imp)[i], "-")]
+  \o (IF v.ext THEN <<H("imp", "ext", "-")>> ELSE <<>>)
+  \o (IF v.cyc THEN <<H("imp", "cyc", "-")>> ELSE <<>>)
 OwnMembers(v, h) ==
-  IF h.t = "root"
-  THEN [i \in 1..Len(SelectSeq(ImportNames, LAMBDA n : n \in v.imp)) |-> H("imp", SelectSeq(ImportNames, LAMBDA n : n \in v.imp)[i], "-")]
-       \o (IF v.ext THEN <<H("imp", "ext", "-")>> ELSE <<>>)
-       \o (IF v.cyc THEN <<H("imp", "cyc", "-")>> ELSE <<>>)
-       \o (IF Present(v, "M") THEN <<DefH("M")>> ELSE <<>>)           \* submodules are attached after the visit
+  IF h.t = "root"                      \* submodules are attached after the visit of __init__, in sorted order
+  THEN (IF site = "root" THEN Imports(v) ELSE <<>>)
+       \o (IF Present(v, "M") THEN <<DefH("M")>> ELSE <<>>)
+       \o (IF site = "sib" THEN <<SibH>> ELSE <<>>)
+  ELSE IF h.t = "sib" THEN Imports(v)
   ELSE IF h.t # "def" THEN <<>>
   ELSE (IF h.id = "M" /\ v.cyc THEN <<H("mcyc", "cyc", "-")>> ELSE <<>>)
        \o LET kids == SelectSeq(ChildrenSeq(h.id), LAMBDA d : Present(v, d)) IN [i \in 1..Len(kids) |-> DefH(kids[i])]
@@ -124,13 +134,17 @@ Lookup(v, h, nm) == LET ms == AllMembers(v, h)
                     IN IF hit = {} THEN NoH ELSE ms[CHOOSE i \in hit : TRUE]
 
 \* mixins.is_public, statement by statement (public attribute is never set here)
-ParentIsModule(h) == h.t \in {"imp", "mcyc"} \/ (h.t = "def" /\ ParentOf(h.id) \in {"root", "M"})
-ParentExports(v, h) == IF h.t = "imp" \/ (h.t = "def" /\ h.id = "M") THEN (IF v.hasRall THEN v.rall ELSE {})
-                       ELSE (IF v.hasMall THEN v.mall ELSE {})             \* bool(parent.exports)
+ParentIsModule(h) == h.t \in {"imp", "mcyc", "sib"} \/ (h.t = "def" /\ ParentOf(h.id) \in {"root", "M"})
+InSite(h) == h.t = "imp"                                                   \* member of the module holding the re-exports
+InPkg(h) == h.t = "sib" \/ (h.t = "def" /\ h.id = "M")                     \* member of pkg/__init__ itself
+ParentHasAll(v, h) == IF InSite(h) THEN v.hasRall                          \* parent.exports is not None (fix cee63a5)
+                      ELSE IF InPkg(h) THEN site = "root" /\ v.hasRall
+                      ELSE v.hasMall
+ParentExports(v, h) == IF InSite(h) \/ InPkg(h) THEN v.rall ELSE v.mall
 ImportedH(v, h) == h.t \in {"imp", "mcyc"}                                  \* name in parent.imports
 IsPublicImpl(v, h) ==
   IF ~IsAlias(h) /\ KindH(v, h) = "module" /\ ~Underscore(NameH(h)) THEN TRUE
-  ELSE IF ParentIsModule(h) /\ ParentExports(v, h) # {} THEN NameH(h) \in ParentExports(v, h)
+  ELSE IF ParentIsModule(h) /\ ParentHasAll(v, h) THEN NameH(h) \in ParentExports(v, h)
   ELSE IF Underscore(NameH(h)) THEN FALSE
   ELSE IF ImportedH(v, h) THEN FALSE
   ELSE TRUE
@@ -211,7 +225,8 @@ ExitCode(r) == IF r.aborted # "no" THEN "crash" ELSE IF r.out # {} THEN "1" ELSE
 \* a module-level name is public when listed in __all__ if the module defines it, else when it has no
 \* underscore and is not imported; a submodule / class member when it has no underscore
 RefPublicIn(v, c, nm, imported) ==
-  IF c = "root" THEN (IF nm = "M" THEN ~Underscore(nm) ELSE IF v.hasRall THEN nm \in v.rall ELSE ~Underscore(nm) /\ ~imported)
+  IF c = "site" THEN (IF v.hasRall THEN nm \in v.rall ELSE ~Underscore(nm) /\ ~imported)
+  ELSE IF c = "root" THEN ~Underscore(nm)                    \* submodules M / zapi: not subject to __all__
   ELSE IF c = "M" THEN (IF v.hasMall THEN nm \in v.mall ELSE ~Underscore(nm) /\ ~imported)
   ELSE ~Underscore(nm)
 \* access paths below the object `d` reached through the access path q (pubOnly: public segments only)
@@ -229,7 +244,7 @@ PubPaths(v) ==
   (IF Present(v, "M") /\ RefPublicIn(v, "root", "M", FALSE)
    THEN {<<CP("M"), "M">>} \cup UNION {ObjPaths(v, CP(d), d, TRUE) : d \in {k \in ModuleLevel : Present(v, k) /\ RefPublicIn(v, "M", NameOf(k), FALSE)}}
    ELSE {})
-  \cup UNION {ObjPaths(v, <<"pkg", nm>>, nm, TRUE) : nm \in {k \in v.imp : Present(v, k) /\ RefPublicIn(v, "root", k, TRUE)}}
+  \cup UNION {ObjPaths(v, Append(SitePath, nm), nm, TRUE) : nm \in {k \in v.imp : Present(v, k) /\ RefPublicIn(v, "site", k, TRUE)}}
 \* every access path below the defining module itself (pkg.M....), public or not
 CanonPaths(v) ==
   IF Present(v, "M") THEN {<<CP("M"), "M">>} \cup UNION {ObjPaths(v, CP(d), d, FALSE) : d \in {k \in ModuleLevel : Present(v, k)}} ELSE {}
@@ -248,19 +263,16 @@ KindFor(op) == CASE op = "Remove" -> "OBJECT_REMOVED" [] op = "ChangeKind" -> "O
 Logged(op, d, v2) == /\ Len(log) < MaxEdits
                      /\ new' = v2 /\ log' = Append(log, [op |-> op, id |-> d])
                      /\ report' = Report(old, v2)
-                     /\ UNCHANGED <<mpriv, old, pub, canon>>
+                     /\ UNCHANGED <<mpriv, site, old, pub, canon>>
 Drop(v, ds) == [v EXCEPT !.kind = [d \in DefIds |-> IF d \in ds THEN "absent" ELSE @[d]],
                          !.imp = @ \ ds, !.rall = @ \ ds, !.mall = @ \ ds, !.opt = @ \ ds, !.ret = @ \ ds]
-\* the edit leaves no `__all__ = []` behind (an empty list is "no __all__" for is_public: C01's finding)
-AllsNonEmpty(v) == (v.hasRall => v.rall # {}) /\ (v.hasMall => v.mall # {})
-
 \* incompatible edits (the objects touched exist in both versions, each is touched in one way only)
 Remove(d) ==
   /\ d \in {"M", "B", "K", "f", "x", "p", "bm", "km", "kp"}
   /\ Present(old, d) /\ Present(new, d)
   /\ (d = "M" => new.imp = {} /\ ~new.cyc)                          \* nothing imports from it any more
   /\ (d = "B" => ~new.kbase \/ new.kind["K"] # "class")             \* no class still derives from it
-  /\ LET v2 == Drop(new, {d} \cup Descendants(d)) IN AllsNonEmpty(v2) /\ Logged("Remove", d, v2)
+  /\ LET v2 == Drop(new, {d} \cup Descendants(d)) IN Logged("Remove", d, v2)
 NewKind(d) == CASE d \in {"K", "x", "km"} -> "function" [] OTHER -> "attribute"
 ChangeKind(d) ==
   /\ d \in {"K", "f", "x", "bm", "km"}
@@ -298,8 +310,8 @@ ReexpChoices == IF BaseFamily = "small" THEN {{"K", "f", "x"}} ELSE {{}, {"f"}, 
 MallChoices == IF BaseFamily = "small" THEN {"none", "part"} ELSE {"none", "full", "part"}
 Init ==
   /\ mpriv \in BOOLEAN
+  /\ site \in {"root", "sib"}
   /\ \E mallc \in MallChoices, reexp \in ReexpChoices, withRall \in BOOLEAN, ext \in BOOLEAN, cyc \in BOOLEAN, kbase \in BOOLEAN :
-        /\ (withRall => reexp # {} \/ ext \/ cyc)                     \* never `__all__ = []`
         /\ (BaseFamily = "small" => (ext = cyc) /\ kbase)
         /\ old = BasePackage(mallc, reexp, withRall, ext, cyc, kbase)
   /\ new = old /\ log = <<>>
@@ -361,7 +373,7 @@ Obligations ==
      [op |-> log[i].op, id |-> log[i].id, public |-> PublicEdit(i), masked |-> Masked(i),
       kind |-> KindFor(log[i].op), paths |-> LivePublic(i), lenient |-> LiveAny(i)]]
 EmitCase ==
-  Emit => PrintT(<<"CASE", ToJson([mpriv |-> mpriv, old |-> old, new |-> new, log |-> log,
+  Emit => PrintT(<<"CASE", ToJson([mpriv |-> mpriv, site |-> site, old |-> old, new |-> new, log |-> log,
                                    aborted |-> report.aborted, out |-> report.out, exit |-> ExitCode(report),
                                    oblig |-> Obligations, okpaths |-> OkPaths,
                                    allcompat |-> (\A i \in 1..Len(log) : ~PublicEdit(i))])>>)
